@@ -458,16 +458,16 @@ Proof. reflexivity. Qed.
 
 Lemma seqv_set_attempt a b z : seqv a b -> seqv (set_attempt a z) (set_attempt b z).
 Proof.
-  unfold seqv. intros (?&?&?&?&?&?&?&?&?&?&?&?&?&?&H). cbn [set_attempt r_method r_rawquery r_headers r_cookies r_form
-    r_query r_body r_getbody r_reader r_unreplayable r_attempt r_path r_pparams r_ordered r_marshal].
+  unfold seqv. intros (?&?&?&?&?&?&?&?&?&?&?&?&?&?&?&H). cbn [set_attempt r_method r_rawquery r_headers r_cookies r_form
+    r_query r_body r_getbody r_reader r_unreplayable r_attempt r_path r_pparams r_ordered r_marshal r_close].
   repeat (split; [first [assumption|reflexivity]|]). exact H.
 Qed.
 
 Lemma seqv_getbody a b : seqv a b -> r_getbody a = r_getbody b.
-Proof. unfold seqv. intros (?&?&?&?&?&?&?&?&?&?&?&?&?&?&H). assumption. Qed.
+Proof. unfold seqv. intros (?&?&?&?&?&?&?&?&?&?&?&?&?&?&?&H). assumption. Qed.
 
 Lemma seqv_attempt a b : seqv a b -> r_attempt a = r_attempt b.
-Proof. unfold seqv. intros (?&?&?&?&?&?&?&?&?&?&?&?&?&?&H). assumption. Qed.
+Proof. unfold seqv. intros (?&?&?&?&?&?&?&?&?&?&?&?&?&?&?&H). assumption. Qed.
 
 (* T = the state the first pass of the middlewares left; later turns start from a state that
    is T up to the attempt counter and reproduce it *)
